@@ -63,7 +63,11 @@ class Range:
         end = (self.next >= self.stop) if self.step >= 0 else (self.next <= self.stop)
         if end:
             return nothing()
-        return some((self.next, Range(self.next + self.step, self.stop, self.step)))
+        succ = self.next + self.step
+        # If the addition wrapped around the integer range, the sequence is exhausted
+        if (succ < self.next) if self.step >= 0 else (succ > self.next):
+            succ = self.stop
+        return some((self.next, Range(succ, self.stop, self.step)))
 
 
 @guppy
